@@ -240,3 +240,46 @@ func VP_C08_ary_long() {
 	}
 	vp.Cover("end")
 }
+
+// large declared lengths over short streams (the declared size far beyond what
+// follows): an error, never a panic and never a success. Lengths at the
+// thresholds an implementation might treat specially (64 KiB, 1 MiB, 4 Mi).
+func VP_C08_big_declared() {
+	decl := []int32{32767, 32768, 65535, 65536, 65537, 1 << 20, 1<<22 - 1}[vp.Choice(7)]
+	tail := vp.Bytes(vp.Choice(4))
+	vp.SizeBound(8) // symbolic lengths only; the concrete declared sizes are limited by the allocation bound
+	stream := append(vpVarIntRef(decl), tail...)
+	r := bytes.NewReader(stream)
+	var err error
+	switch vp.Choice(8) {
+	case 0:
+		var d String
+		_, err = d.ReadFrom(r)
+	case 1:
+		d := ByteArray(vpPrior(2))
+		_, err = d.ReadFrom(r)
+	case 2:
+		var d BitSet
+		_, err = d.ReadFrom(r)
+	case 3:
+		var d []VarInt
+		_, err = Ary[VarInt]{Ary: &d}.ReadFrom(r)
+	case 4:
+		var d []String
+		_, err = Ary[VarInt]{Ary: &d}.ReadFrom(r)
+	case 5:
+		// uncompressed frame declaring this many bytes
+		var p Packet
+		err = p.UnPack(r, -1)
+	case 6:
+		// compressed frame: packet length = what follows, data length = decl
+		body := append(vpVarIntRef(decl), vp.Deflate(tail)...)
+		var p Packet
+		err = p.UnPack(bytes.NewReader(append(vpVarIntRef(int32(len(body))), body...)), 0)
+	default:
+		var d Identifier
+		_, err = d.ReadFrom(r)
+	}
+	vp.Assert(err != nil, "declared size beyond the stream is an error")
+	vp.Cover("end")
+}
